@@ -68,6 +68,8 @@ impl AsyncHandle {
             #[cfg(test)]
             Arc::clone(validation_buffer),
         );
+        #[cfg(flexi_logger_verif)]
+        crate::verif_hooks::sync_op(crate::verif_hooks::Op::Spawned("std_async_writer"));
 
         AsyncHandle {
             sender,
@@ -78,12 +80,19 @@ impl AsyncHandle {
     }
 
     fn pop_buffer(&self) -> Vec<u8> {
+        #[cfg(flexi_logger_verif)]
+        crate::verif_hooks::sync_op(crate::verif_hooks::Op::Point("std_pool_pop"));
         self.a_pool
             .pop()
             .unwrap_or_else(|| Vec::with_capacity(self.msg_capa))
     }
 
     fn send(&self, buffer: Vec<u8>) -> Result<(), SendError<Vec<u8>>> {
+        #[cfg(flexi_logger_verif)]
+        crate::verif_hooks::sync_op(crate::verif_hooks::Op::Send(
+            "std_chan",
+            crate::verif_hooks::id_of(&self.a_pool),
+        ));
         self.sender.send(buffer)
     }
 }
@@ -137,6 +146,8 @@ impl LogWriter for StdWriter {
     fn write(&self, now: &mut DeferredNow, record: &Record) -> std::io::Result<()> {
         match &self.writer {
             InnerStdWriter::Unbuffered(stdstream) => {
+                #[cfg(flexi_logger_verif)]
+                crate::verif_hooks::sync_op(crate::verif_hooks::Op::Point("std_lock"));
                 let mut w = stdstream.lock();
                 write_buffered(
                     self.format,
@@ -148,6 +159,8 @@ impl LogWriter for StdWriter {
                 )
             }
             InnerStdWriter::Buffered(m_w) => {
+                #[cfg(flexi_logger_verif)]
+                crate::verif_hooks::sync_op(crate::verif_hooks::Op::Point("std_lock"));
                 let mut w = m_w.lock().map_err(|_e| io_err("Poison"))?;
                 write_buffered(
                     self.format,
@@ -180,6 +193,8 @@ impl LogWriter for StdWriter {
                 w.flush()
             }
             InnerStdWriter::Buffered(m_w) => {
+                #[cfg(flexi_logger_verif)]
+                crate::verif_hooks::sync_op(crate::verif_hooks::Op::Point("std_lock"));
                 let mut w = m_w.lock().map_err(|_e| io_err("Poison"))?;
                 w.flush()
             }
@@ -199,7 +214,16 @@ impl LogWriter for StdWriter {
             let mut buffer = handle.pop_buffer();
             buffer.extend(ASYNC_SHUTDOWN);
             handle.send(buffer).ok();
+            #[cfg(flexi_logger_verif)]
+            let _vh = crate::verif_hooks::LockScope::new(
+                "std_join",
+                crate::verif_hooks::id_of(&handle.a_pool),
+            );
             if let Ok(ref mut o_th) = handle.mo_thread_handle.lock() {
+                #[cfg(flexi_logger_verif)]
+                if let Some(th) = o_th.as_ref() {
+                    crate::verif_hooks::sync_op(crate::verif_hooks::Op::Join(th.thread().id()));
+                }
                 o_th.take().and_then(|th| th.join().ok());
             }
         }
